@@ -475,6 +475,18 @@ class Engine:
                         nst = x
             return self.variant_feasible(nst, inner, v)
         # bool-typed discriminant
+        if listed == ["0"] and counter_read(d) is None:
+            return self.assume(st, d, v != "0", b)
+        # integer switch on a counter value: `match strong { 0 | MAX => .., _ => .. }`
+        g = counter_read(d)
+        if g is not None:
+            if v == "otherwise":
+                for lv in listed:
+                    st = self.assume(st, ("bin", "Eq", d, const(lv)), False, b)
+                    if st is None:
+                        return None
+                return st
+            return self.assume(st, ("bin", "Eq", d, const(v)), True, b)
         if listed == ["0"]:
             return self.assume(st, d, v != "0", b)
         return st
@@ -592,6 +604,10 @@ class Engine:
                         x2 = h(self, st, x[2], is_s, b)
                         if x2 is not None:
                             st = x2
+                return st
+            # comparisons involving a count read out of a hash table: remembered for the bookkeeping rules
+            if mentions(c, lambda e: e[0] == "call" and e[2].startswith("hashbrown::") and e[2].rsplit("::", 1)[1] in ("get", "get_mut")):
+                st = st.replace(flags=st.flags | {("cmp", op, x, y, truth)})
                 return st
             # pointer comparisons
             if op in ("Eq", "Ne"):
@@ -949,6 +965,19 @@ def classify_set(v, bp, st):
             if (g[0], box, field) in st.fresh:
                 return "dec" if v[1].startswith("Sub") else "inc"
             return "stale-" + ("dec" if v[1].startswith("Sub") else "inc")
+    # (count.checked_add(1) as Some).0 and friends
+    inner = v
+    if inner[0] == "field" and inner[1][0] == "variant" and inner[1][2] == "Some":
+        inner = inner[1][1]
+    if inner[0] == "call" and inner[2].startswith("core::num::<impl usize>::") and len(inner[3]) == 2 and is_const(inner[3][1], 1):
+        m = inner[2].rsplit("::", 1)[1]
+        g = counter_read(inner[3][0])
+        if g is not None and g[1] == box and g[2] == field:
+            fresh = (g[0], box, field) in st.fresh
+            if m in ("checked_add", "wrapping_add", "saturating_add", "unchecked_add", "strict_add"):
+                return "inc" if fresh else "stale-inc"
+            if m in ("checked_sub", "wrapping_sub", "saturating_sub", "unchecked_sub", "strict_sub"):
+                return "dec" if fresh else "stale-dec"
     if v[0] == "call" and v[2] in ("core::num::<impl usize>::wrapping_sub", "core::num::<impl usize>::saturating_sub") and is_const(v[3][1], 1):
         g = counter_read(v[3][0])
         if g is not None and g[1] == box and g[2] == field:
